@@ -110,3 +110,36 @@ Fixpoint show (v : jv) : bytes :=
                        | (k, a) :: m' => x6b :: hex_of_bytes k ++ x20 :: show a ++ x20 :: go m'
                        end) m
   end.
+
+(* induction principle that reaches inside arrays and objects *)
+Section JvInd.
+  Variable P : jv -> Prop.
+  Hypothesis Hnull : P JNull.
+  Hypothesis Hbool : forall b, P (JBool b).
+  Hypothesis Hint : forall z, P (JInt z).
+  Hypothesis Hfloat : forall t, P (JFloat t).
+  Hypothesis Hbig : forall t, P (JBig t).
+  Hypothesis Hstr : forall s, P (JStr s).
+  Hypothesis Harr : forall l, Forall P l -> P (JArr l).
+  Hypothesis Hobj : forall m, Forall (fun kv => P (snd kv)) m -> P (JObj m).
+
+  Fixpoint jv_ind2 (v : jv) : P v :=
+    match v with
+    | JNull => Hnull
+    | JBool b => Hbool b
+    | JInt z => Hint z
+    | JFloat t => Hfloat t
+    | JBig t => Hbig t
+    | JStr s => Hstr s
+    | JArr l => Harr l ((fix go (l : list jv) : Forall P l :=
+                           match l with
+                           | [] => Forall_nil _
+                           | x :: l' => Forall_cons x (jv_ind2 x) (go l')
+                           end) l)
+    | JObj m => Hobj m ((fix go (m : list (bytes * jv)) : Forall (fun kv => P (snd kv)) m :=
+                           match m with
+                           | [] => Forall_nil _
+                           | (k, x) :: m' => Forall_cons (k, x) (jv_ind2 x) (go m')
+                           end) m)
+    end.
+End JvInd.
